@@ -50,6 +50,18 @@ func (e *env) seam(kind string) error {
 		}
 		return fmt.Errorf("sim: injected %s failure", kind)
 	}
+	// per RPC: the k-th call of this kind made by a task of that RPC (independent of how RPCs interleave)
+	if e.pool != nil && e.pool.owner != nil {
+		key := e.pool.owner() + "/" + kind
+		e.calls[key]++
+		if at, ok := e.failAt[key]; ok && e.calls[key] == at {
+			e.Fired["lib-"+kind]++
+			if e.w != nil {
+				e.w.Logf("fault", "%s call %d fails", key, at)
+			}
+			return fmt.Errorf("sim: injected %s failure", kind)
+		}
+	}
 	return nil
 }
 
